@@ -8,7 +8,9 @@ PA = "104,101,108,108,111"          # "hello"
 PB = "49,50,51,52,53,54,55,56,57,48,65,66,67"   # "1234567890ABC"
 ALPHABET = [f"add~{PA}~0", f"add~{PB}~4", "clear", "make~1", "make~0", "setv~1", "setv~2", "setl~2", "setm~-", "getm",
             "mut~8~8~1", "img", "ascii", f"other~2~1~-~1~4:{PA}",
-            "addseg~1:52,50,49,57", "addseg~2:52,50,49,57"]      # the same bytes as a numeric and as an alphanumeric segment
+            "addseg~1:52,50,49,57", "addseg~2:52,50,49,57",      # the same bytes as a numeric and as an alphanumeric segment
+            "addsame"]                                           # the same QRData object once more
+SHORTCUTS = []      # filled in run(): qrcode.make(<60 bytes>), qrcode.make("hi") - a larger symbol before a smaller one
 
 
 def fresh_outcome(snap, fit):
@@ -87,7 +89,13 @@ def run(ctx):
             "P2: Model.step state machine vs the real object on every output and the final state (hashes of matrices); "
             "P3: after every make() in a history, modules / version / error = those of a fresh object with the same settings "
             "and data in a FRESH PROCESS (pristine fork server: no symbol was ever produced there). distinct = distinct histories")
+    import_impl()
+    big, small = objrun.shortcut_op(b"shortcut payload that needs a larger symbol than version 1 .."), objrun.shortcut_op(b"hi")
     items = []
+    # the module-level shortcut in every order, alone and around operations on the object
+    for seq in ([big, small], [small, big, small], [big, "make~1", small, "make~1"], [f"add~{PA}~0", big, "make~1", small, "getm"], [big, big, small, small]):
+        for ctor in [(1, 0, 10, 4, 3), (None, 1, 10, 0, None)]:
+            items.append((ctor, list(seq), ()))
     D = 4 if tier == "thorough" else 3
     ctors = [(1, 0, 10, 4, 3), (None, 1, 10, 0, None)]
     for d in range(1, D + 1):
@@ -108,8 +116,10 @@ def run(ctx):
             r = rnd.random()
             if r < 0.18:
                 ops.append(f"add~{pay()}~{rnd.choice([0, 4, 20])}")
-            elif r < 0.22:
+            elif r < 0.21:
                 ops.append(f"addseg~{rnd.choice([1, 2, 4])}:{','.join(str(b) for b in gens.mode_payload(rnd, 1, rnd.randrange(1, 9), 0))}")
+            elif r < 0.22:
+                ops.append(rnd.choice(["addsame", "addsame", big, small]))
             elif r < 0.27:
                 ops.append("clear")
             elif r < 0.45:
